@@ -564,6 +564,16 @@ template<class V> typename std::enable_if<ti<typename V::scalar_value_type>::is_
             ++R.n; if (!(got == acc)) R.fail("a=" + hexv(a, N) + (which == 2 ? " b=" + hexv(b, N) : std::string()) + " got=" + hex(got) + " want=" + hex(acc)); }
         R.end();
     }
+    // rcp(z) = conj(z)/|z|^2, exact on operands whose squared magnitude is a power of two
+    R.begin("rcp_complex");
+    std::vector<T> Q; for (T z : P) { Re d = z.real() * z.real() + z.imag() * z.imag(); int e; if (d != 0 && std::frexp(d, &e) == (Re)0.5) Q.push_back(z); }
+    for (size_t k = 0; k < ncase; ++k) { T a[N], got[N]; bool skip = false; T want[N];
+        for (size_t i = 0; i < N; ++i) { a[i] = Q[(k * 13 + i * 7) % Q.size()]; Re den = a[i].real() * a[i].real() + a[i].imag() * a[i].imag();
+            int e; if (den == 0 || std::frexp(den, &e) != (Re)0.5) skip = true; else want[i] = T(a[i].real() / den, -(a[i].imag() / den)); }
+        if (skip) continue;
+        V r = rcp(mk<V>(a)); un(r, got);
+        for (size_t i = 0; i < N; ++i) { ++R.n; if (!(got[i] == want[i])) { R.fail("lane=" + std::to_string(i) + " a=" + hexv(a, N) + " got=" + hexv(got, N) + " want_lane=" + hex(want[i])); break; } } }
+    R.end();
     // real() / imag() / norm(): vertical
     R.begin("real_imag_norm");
     for (size_t k = 0; k < ncase; ++k) { T a[N]; for (size_t i = 0; i < N; ++i) a[i] = P[(k * 3 + i * 7) % P.size()];
